@@ -28,6 +28,7 @@ type unit struct {
 	//  1: all databases, both directions, all limits, every composition (no empty messages) + no-marker compositions
 	//  0: a third of the databases, newest-first only (metric: both), limits {0,n}, three fixed framings
 	level int
+	o2    bool // O2 unit: split between the SQL engine (executed by chsim) and the in-process engine
 }
 
 // build makes the query of this unit over the given stages.
@@ -43,6 +44,9 @@ func (u *unit) query() ref.Query { return u.build(u.pipe.stages) }
 
 func (u *unit) name() string {
 	n := u.kind + ":" + strings.Join(u.pipe.names, "|")
+	if u.o2 {
+		n = "o2:" + n
+	}
 	if u.shape != nil {
 		n += ":" + u.shape.name
 	}
@@ -95,7 +99,7 @@ func units(thorough bool) []unit {
 			}
 		}
 	}
-	return out
+	return append(out, o2Units(thorough)...)
 }
 
 // ---------------------------------------------------------------------------------------------------------------
@@ -115,6 +119,9 @@ type scope struct {
 	// explanations found so far in this scope; observations no rule set explains
 	expl   []explanation
 	failed map[string]bool
+	// O2: the pipeline is split at `split` (-1: everything on the SQL engine)
+	o2    bool
+	split int
 }
 
 // explanation: a set of deviant rules under which reference and implementation agreed on some case of the scope;
@@ -341,6 +348,7 @@ type toggle struct {
 	rewrite func(u *unit, stages []ref.Stage) ([]ref.Stage, bool) // deviant reading of the query text
 	metric  bool                                                  // only meaningful for metric queries
 	logq    bool                                                  // only meaningful for log queries
+	sql     bool                                                  // a deviant rule of the SQL engine (O2 only)
 }
 
 // rewriteAndOr: qryn's label-filter grammar is right recursive, `a and b or c` reads a and (b or c).
@@ -397,6 +405,15 @@ var toggles = []toggle{
 	{class: "label_format_stale_fingerprint", apply: func(r *ref.Rules) { r.LabelFormatNoRekey = true }},
 	{class: "drop_conditional_fingerprint_recompute", apply: func(r *ref.Rules) { r.DropRekeyOnlyIfChanged = true }},
 	{class: "label_filter_and_or_right_assoc", rewrite: rewriteAndOr},
+	// the SQL engine's side of a split (O2)
+	{class: "sql_engine_line_filter_not_regex_negation_lost", apply: func(r *ref.Rules) { r.LineFilterNotRegexIsRegex = true }, sql: true},
+	{class: "sql_engine_label_format_ignored", apply: func(r *ref.Rules) { r.LabelFormatIgnored = true }, sql: true},
+	{class: "sql_engine_unwrap_missing_or_nonnumeric_counts_as_zero", apply: func(r *ref.Rules) { r.UnwrapInvalidAsZero = true }, sql: true, metric: true},
+	{class: "sql_engine_vector_agg_without_grouping_keeps_series", apply: func(r *ref.Rules) { r.VectorAggNoGroupPerSeries = true }, sql: true, metric: true},
+	{class: "sql_engine_json_param_path_uses_last_segment", apply: func(r *ref.Rules) { r.JSONParamLastSegmentOnly = true }, sql: true},
+	{class: "sql_engine_label_filter_before_parser_sees_stream_labels", apply: func(r *ref.Rules) { r.LabelFilterBeforeParserOnStreamLabels = true }, sql: true},
+	{class: "sql_engine_drop_keeps_fingerprint", apply: func(r *ref.Rules) { r.DropNoRekey = true }, sql: true},
+	{class: "sql_engine_bytes_over_time_divided_by_range", apply: func(r *ref.Rules) { r.BytesOverTimeDivByRange = true }, sql: true, metric: true},
 }
 
 // prefixStreams rebuilds the database restricted to the first n arriving entries.
@@ -414,17 +431,20 @@ func (sc *scope) prefixStreams(n int) []ref.Stream {
 // evalSet evaluates the reference under a set of deviant rules over the whole arrival sequence (prefix < 0) or
 // over its first `prefix` entries.
 func (sc *scope) evalSet(set []int, prefix int) *expected {
-	rules := conv
+	rules, rulesSQL := conv, conv
 	stages := sc.u.pipe.stages
 	for _, ti := range set {
 		t := &toggles[ti]
-		if t.rewrite != nil {
+		switch {
+		case t.rewrite != nil:
 			st, changed := t.rewrite(sc.u, stages)
 			if !changed {
 				return &expected{}
 			}
 			stages = st
-		} else {
+		case t.sql:
+			t.apply(&rulesSQL)
+		default:
 			t.apply(&rules)
 		}
 	}
@@ -434,6 +454,11 @@ func (sc *scope) evalSet(set []int, prefix int) *expected {
 		streams = sc.prefixStreams(prefix)
 	}
 	opt := ref.Options{Forward: sc.forward, Limit: sc.limit, Rules: rules}
+	if sc.o2 {
+		opt.RulesBefore = rulesSQL
+		opt.AllBefore = sc.split < 0
+		opt.SplitAt = sc.split
+	}
 	if sc.u.kind == "log" {
 		r, err := ref.EvalLog(q.Log, streams, opt)
 		if err != nil {
@@ -519,6 +544,12 @@ func (sc *scope) explainWith(o *observed, fr framing, listedOnly bool) *explanat
 		if listedOnly && !knownClasses[t.class] {
 			continue
 		}
+		if t.sql && (!sc.o2 || sc.split == 0) {
+			continue // no stage runs on the SQL engine
+		}
+		if !t.sql && t.rewrite == nil && sc.o2 && sc.split < 0 {
+			continue // no stage runs in process
+		}
 		if t.rewrite != nil {
 			if _, changed := t.rewrite(sc.u, sc.u.pipe.stages); !changed {
 				continue
@@ -590,6 +621,7 @@ type replayDoc struct {
 	Streams []ref.Stream `json:"streams"`
 	Framing []int        `json:"framing"`
 	Case    c09lib.Case  `json:"case"`
+	O2      *o2Replay    `json:"o2,omitempty"`
 }
 
 func sanitizeClass(s string) string {
@@ -697,13 +729,17 @@ func (sc *scope) unexplainedClass(o *observed) string {
 	return strings.Join(parts, "_")
 }
 
-func (sc *scope) replay(text string, c c09lib.Case, fr framing) json.RawMessage {
+func (sc *scope) replayDoc(text string, c c09lib.Case, fr framing) replayDoc {
 	d := replayDoc{Kind: sc.u.kind, Pipe: sc.u.pipe.names, Query: text, DB: sc.db.name, Streams: sc.db.streams,
 		Framing: fr.sizes, Case: c}
 	if sc.u.shape != nil {
 		d.Shape = sc.u.shape.name
 	}
-	b, _ := json.Marshal(d)
+	return d
+}
+
+func (sc *scope) replay(text string, c c09lib.Case, fr framing) json.RawMessage {
+	b, _ := json.Marshal(sc.replayDoc(text, c, fr))
 	return b
 }
 
@@ -713,21 +749,27 @@ func unitFromNames(kind string, names []string, shapeName string) (*unit, error)
 		return nil, fmt.Errorf("empty pipeline")
 	}
 	u := &unit{kind: kind, level: 2}
-	var head *atom
-	for _, h := range headAtoms() {
-		if h.name == names[0] {
-			hh := h
-			head = &hh
+	alpha := stageAlphabet()
+	if names[0] == "o2" {
+		u.o2 = true
+		u.pipe = pipeline{names: names, family: "json"}
+		alpha = o2Alphabet(1)
+	} else {
+		var head *atom
+		for _, h := range headAtoms() {
+			if h.name == names[0] {
+				hh := h
+				head = &hh
+			}
+		}
+		if head == nil {
+			return nil, fmt.Errorf("unknown head %q", names[0])
+		}
+		u.pipe = pipeline{names: names, stages: []ref.Stage{head.stage}, alts: []*ref.Stage{nil}, family: "json"}
+		if names[0] == "logfmt" {
+			u.pipe.family = "logfmt"
 		}
 	}
-	if head == nil {
-		return nil, fmt.Errorf("unknown head %q", names[0])
-	}
-	u.pipe = pipeline{names: names, stages: []ref.Stage{head.stage}, alts: []*ref.Stage{nil}, family: "json"}
-	if names[0] == "logfmt" {
-		u.pipe.family = "logfmt"
-	}
-	alpha := stageAlphabet()
 	for _, n := range names[1:] {
 		found := false
 		for _, a := range alpha {
@@ -767,6 +809,8 @@ type unitResult struct {
 	Classes  map[string]int64 `json:"classes,omitempty"`
 	Findings []finding        `json:"findings,omitempty"`
 	Err      string           `json:"err,omitempty"`
+	// O2: SQL the reference interpreter does not support (never a verdict)
+	Unsupported []string `json:"chsim_unsupported,omitempty"`
 }
 
 // runUnit executes every case of a unit.  journal is called before each execution.
